@@ -78,7 +78,7 @@ def boostOf (c : Case) : BoostOps Float :=
     neg := r1, abs := if c.op == Op.mod then id else r1, square := r1, sqrt := r1, sin := r1, cos := r1,
     tan := r1, asin := r1, acos := r1, atan := r1, exp := r1, log := r1, oneDiv := r1,
     powi := fun _ _ => R, nthRoot := fun _ _ => R,
-    mulNeg1 := id, mulInt := fun b _ => b,
+    mulNeg1 := id, mulF := fun b _ => b,
     empty := ⟨FVal.nan, FVal.nan⟩,
     atanWhole := ⟨auxV c 0, auxV c 1⟩,
     atan2f := fun y x =>
@@ -91,9 +91,9 @@ def boostOf (c : Case) : BoostOps Float :=
       auxV c (iy + ix),
     pi := auxV c 5, negPi := auxV c 4,
     toInt := truncInt,
-    floorInt := fun q =>
-      -- `static_cast<int>(std::floor(q))` as the harness observed it for q.lo / q.hi
-      if bitsOf q == bitsOf (auxV c 2) then truncInt (auxV c 4) else truncInt (auxV c 5),
+    floorF := fun q =>
+      -- `std::floor(q)` as the harness observed it for q.lo / q.hi
+      if bitsOf q == bitsOf (auxV c 2) then auxV c 4 else auxV c 5,
     nanOnZeroToNeg := c.aux.getD 0 "" == "3f800000",
     powM1IsNan := fun _ => c.aux.getD 1 "" == "3f800000" }
 
